@@ -18,6 +18,9 @@ const (
 	GapOpt  GapKind = iota // zero or more whitespace
 	GapReq                 // at least one whitespace character
 	GapNone                // must be adjacent
+	// GapRare: written adjacent by everybody, but whitespace is legal (between
+	// the dot of a segmented name and the identifier segment after it).
+	GapRare
 )
 
 // Class is a coarse token class (used for gap decisions and C16 keys).
@@ -213,6 +216,13 @@ func (b *Builder) Ident(name string) {
 	b.Toks[len(b.Toks)-1].Val = name
 }
 
+// IdentAfterDot emits an identifier segment behind a dot: adjacent in the
+// usual spelling, but the grammar allows whitespace there.
+func (b *Builder) IdentAfterDot(name string) {
+	b.Ident(name)
+	b.ForceGap(GapRare)
+}
+
 // IdentNone emits an identifier that must touch its predecessor.
 func (b *Builder) IdentNone(name string) {
 	b.Ident(name)
@@ -273,6 +283,8 @@ type Layout struct {
 	Minimal bool
 	// Spaced: every optional and required gap is exactly one space.
 	Spaced bool
+	// Loose: with Spaced, the rarely used gaps (GapRare) are one space too.
+	Loose bool
 }
 
 var wsKinds = []string{" ", "\t", "\n", "\r\n", "\r", "  ", " \n ", "\t \r\n"}
@@ -290,6 +302,13 @@ func Render(toks []Tok, l Layout) (string, []Gap) {
 			}
 		case t.Gap == GapNone:
 			g = ""
+		case t.Gap == GapRare:
+			if l.Loose || (!l.Minimal && !l.Spaced && l.Rg != nil && l.Rg.P(0.12)) {
+				g = " "
+				if l.Rg != nil && l.Rg.P(0.3) {
+					g = wsKinds[l.Rg.Intn(len(wsKinds))]
+				}
+			}
 		case l.Spaced:
 			g = " "
 		case l.Minimal:
